@@ -1,4 +1,5 @@
 """Structured workload generator: draws `Pep` specifications with controllable feature switches."""
+import copy
 import re
 from dataclasses import dataclass, field
 from functools import lru_cache
@@ -299,6 +300,7 @@ class GenCfg:
     p_interval: float = 0.2
     p_charge: float = 0.3
     p_adducts: float = 0.4        # given a charge
+    p_rule_collision: float = 0.12  # given static rules
     neg_charge: bool = True
     labels: List[str] = field(default_factory=lambda: list(LABELS))
     shuffle_start: bool = True
@@ -418,6 +420,19 @@ def gen_pep(rng, cfg: GenCfg) -> Pep:
                     # ProForma writes 'N-term' / 'C-term'; the targets are case-insensitive keywords
                     spelling[t] = rng.choice([t[0] + '-term', t[0] + '-term', t.lower(), t.upper()])
             p.static.append(Rule(mods, targets, spelling))
+    if p.static and rng.random() < cfg.p_rule_collision:
+        # a target of a global rule already carries the very same modification explicitly (rule and explicit copy add up)
+        r = rng.choice(p.static)
+        t = rng.choice(r.targets)
+        if t == 'N-Term':
+            p.nterm = p.nterm + copy.deepcopy(r.mods)
+        elif t == 'C-Term':
+            p.cterm = p.cterm + copy.deepcopy(r.mods)
+        else:
+            where = [i for i, aa in enumerate(seq) if aa == t]
+            if where:
+                i = rng.choice(where)
+                p.res[i] = p.res.get(i, []) + copy.deepcopy(r.mods)
     if rng.random() < cfg.p_isotope and cfg.labels:
         labs = rng.sample(cfg.labels, rng.choice([1, 1, 2]))
         # at most one label per element
